@@ -731,7 +731,7 @@ def inline_model(prog, names, fallback=None, depth=0):
                 effects = None
                 pnames = {prm["n"]: a for prm, a in zip(cf.params, args)}
                 for q in paths:
-                    if q.reason != "exit" or not q.returned or q.undetermined:
+                    if q.reason != "exit" or q.undetermined or (not q.returned and cf.ret != "void"):
                         return TOP
                     rets.add(q.ret if not isinstance(q.ret, (list, dict)) else TOP)
                     eff = {}
